@@ -49,7 +49,7 @@ def _plain_wrapper(orig, cond):
 def ensure(orig, cond):
     """Return `orig` wrapped with the recording post-condition `cond`."""
     if HAVE_ICONTRACT:
-        return icontract.ensure(cond, error=PostBroken)(orig)
+        return icontract.ensure(cond, error=PostBroken, enabled=True)(orig)     # also under python -O
     return _plain_wrapper(orig, cond)
 
 
